@@ -4,6 +4,7 @@ import KfacVerif.Driver.Neox
 import KfacVerif.Driver.Precond
 import KfacVerif.Driver.Alg
 import KfacVerif.Driver.NeoxLayer
+import KfacVerif.Driver.NeoxScript
 
 namespace KV.Driver
 
@@ -31,6 +32,7 @@ def dispatch (line : String) : String :=
     | "alg" => algOp args
     | "neoxl" => neoxLayerOp args
     | "neoxckpt" => neoxCkptOp args
+    | "neoxs" => neoxScriptOp args
     | _ => "bad-op"
 
 end KV.Driver
